@@ -41,6 +41,13 @@ CHECKS = {
             "colliding across operands, the same object as both operands); each result is decided exactly by TLC.",
             "Trusted: TLC, projection. The reference constructions are themselves model-checked against word-level "
             "definitions (AlgebraOK).", "DESIGN.md section 3 C03"),
+    "C06": ("TLA+ API state machine (FAGen) enumerated by TLC, replayed through to_regex() under label permutations "
+            "(elimination order follows set order) and hash seeds; the returned expression judged by TraceFA: exact Equiv "
+            "of its recorded epsilon-NFA with the source, and accepts() on every word up to length 4 against FASem",
+            "Exhaustive within small constants (any start/final sets incl. empty, start=final, several start states, self "
+            "loops, epsilon and parallel edges), all label permutations in the thorough tier; each instance settled exactly.",
+            "Trusted: TLC, projection. Symbols restricted to alphanumeric strings (the property's plain-token domain).",
+            "DESIGN.md section 3 C06"),
 }
 
 NOT_YET = "check not built yet in this round (see DESIGN.md section 9, build order); no claim is made"
